@@ -39,6 +39,9 @@ def plain_map(rng, depth, keys=KEYS, p_container=0.5, markers=0.0, nonstr_keys=0
                    marked_value(rng, depth, keys, p_container, markers)))
     if nonstr_keys and rng.random() < nonstr_keys:
         es.append((rng.choice([I(1), B(True), N, I(-3)]), scalar(rng)))
+    if markers and rng.random() < 0.04:
+        # a key that consists of a marker only: the key "" with that marker
+        es.append((S(rng.choice(['=', '~'])), scalar(rng)))
     return ('m', es)
 
 
@@ -219,6 +222,10 @@ def ranked_root(rng, n=None, chain=None, cyc=False):
             if r < 0.35:
                 v = ('m', [(S('x'), scalar(rng)), (S('y'), ('l', [scalar(rng)])), (S('z'), ('m', [(S('w'), scalar(rng))]))])
                 sub[k] = ['x', 'y', 'z', 'z:w']
+                if rng.random() < 0.3:
+                    # keys with a dollar or a backslash that is no marker: literal text of a reference path
+                    v = ('m', v[1] + [(S('$d'), scalar(rng)), (S('b\\s'), ('l', [scalar(rng)]))])
+                    sub[k] = sub[k] + ['$d', 'b\\s']
             elif r < 0.5:
                 v = ('l', [scalar(rng), scalar(rng)])
             else:
